@@ -315,9 +315,15 @@ class RemoveMapping:
         if role not in self.excl or self.am_removal is None:
             return None
         ex = self.excl[role]
+        if ex == "part":
+            return "subset"     # a slice that leaves out index i and more (active_mappings[..i], [i+1..])
         if self.am_removal == "after":
             return "exact" if ex else "superset"
         return "subset" if ex else "exact"
+
+    def scan_text(self, role):
+        return {True: "skips index i", False: "looks at every listed mapping", "part": "looks at a slice that leaves out index i and more",
+                None: "not recognised"}.get(self.excl.get(role))
 
     def all_problems(self):
         return self.problems + self.role_problems["used"] + self.role_problems["shadowed"]
@@ -406,7 +412,15 @@ def remove_mapping_analysis(ctx, K):
                         R.flags[role] = el
                         R.excl[role] = excl
                 if any_atoms[a] is None:
-                    unknown.append(show(a)[:60])
+                    txt = show(a)[:60]
+                    rl = _closure_field_role(ctx, a)
+                    if rl is not None:
+                        if ("unrecognised scan: %s" % txt) not in R.role_problems[rl]:
+                            R.role_problems[rl].append("unrecognised scan: %s" % txt)
+                        R.flags.setdefault(rl, None)
+                        val[rl] = v
+                    else:
+                        unknown.append(txt)
                 else:
                     val[any_atoms[a]] = v
             else:
@@ -457,6 +471,32 @@ def remove_mapping_analysis(ctx, K):
     return R
 
 
+def _closure_field_role(ctx, atom):
+    """an any()-scan we cannot read exactly: which of the two questions does its closure ask (m.to / m.from)?"""
+    try:
+        clos = atom[2][1]
+        cps, cb = mir.walk_closure(ctx.body, clos, param_terms=[T("elem", atom[2][0], None)])
+    except Exception:
+        return None
+    fields = set()
+    for p in cps:
+        for e in p.events:
+            for t in (e.a, e.b, e.c):
+                if isinstance(t, tuple):
+                    for s_ in mir.subterms(t):
+                        if isinstance(s_, tuple) and s_ and s_[0] == "field" and s_[2] in ("to", "from"):
+                            fields.add(s_[2])
+        if isinstance(p.outcome[1] if len(p.outcome) > 1 else None, tuple):
+            for s_ in mir.subterms(p.outcome[1]):
+                if isinstance(s_, tuple) and s_ and s_[0] == "field" and s_[2] in ("to", "from"):
+                    fields.add(s_[2])
+    if fields == {"to"}:
+        return "used"
+    if fields == {"from"}:
+        return "shadowed"
+    return None
+
+
 def _flag_role(el, i_par, k):
     """exists m among active_mappings [other than index i]: m.<field> contains k
        -> ('used' (field to) | 'shadowed' (field from), skips_index_i)   or (None, None)
@@ -467,9 +507,23 @@ def _flag_role(el, i_par, k):
     if by_index:
         if list_of(L) != "AM":
             return None, None
-    else:
-        if not (isinstance(it, tuple) and it[0] == "iter" and list_of(it[1]) == "AM"):
+    part = False
+    if not by_index:
+        if not (isinstance(it, tuple) and it[0] == "iter"):
             return None, None
+        src = mir.strip(it[1])
+        if list_of(src) != "AM":
+            # a slice of active_mappings that stops short of / starts after index i
+            if not (isinstance(src, tuple) and src[0] == "index" and list_of(src[1]) == "AM" and isinstance(src[2], tuple) and src[2][0] == "agg"):
+                return None, None
+            rng = src[2]
+            ops = dict(zip(rng[4], rng[3])) if len(rng) > 4 else {}
+            if rng[1] == "std::ops::RangeTo" and ops.get("end") == i_par:
+                part = True
+            elif rng[1] == "std::ops::RangeFrom" and ops.get("start") == T("binop", "Add", i_par, T("const", T("int", 1, "usize"))):
+                part = True
+            else:
+                return None, None
     roles = set()
     excls = set()
 
@@ -500,6 +554,13 @@ def _flag_role(el, i_par, k):
     if len(roles) != 1 or None in roles or len(excls) != 1:
         return None, None
     excl = excls.pop()
+    if part:
+        if excl:
+            return None, None
+        for gs in el.cont_paths:
+            if not (len(gs) == 1 and gs[0][1] is False and isinstance(gs[0][0], tuple) and gs[0][0][0] == "in"):
+                return None, None
+        return roles.pop(), "part"
     for gs in el.cont_paths:
         # either j == i, or [j != i and] not contains
         if excl and len(gs) == 1 and gs[0][1] is True and isinstance(gs[0][0], tuple) and gs[0][0][0] == "eq":
